@@ -224,8 +224,9 @@ PROPERTY = {
         explanation='O1-O6 are post-conditions / relational clauses of the real cost functions over all valid (relaxed) layer descriptions: every function '
                     'registered in params, params_no_bias, params_bit, ops, ops_no_bias, ops_bit, gap8_latency, mpic_latency, mpic_energy, ne16_latency and '
                     'diana_latency, the rounding helpers and the MPIC look-up table.  NE16: one dimension varied at a time; monotonicity in the output channels of '
-                    '3x3 / 1x1 convolutions goes through two lemmas on the real code (latency factorises over spatial tiles; monotone at a single output position) '
-                    'and an arithmetic skeleton.  The ratio ops/latency that Ne16PerfModel_generalized computes and discards is 0/0 for an empty layer: reported '
+                    '3x3 / 1x1 convolutions goes through lemmas on the real code - latency factorises over spatial tiles; at a single output position it is affine '
+                    'in the number of input tiles; base (0 input channels) and slope (latency(16) - latency(0)) are monotone in the output channels - and two '
+                    'arithmetic skeletons over opaque reals (the direct relational query mixes div/mod with tri-linear terms and was unstable: 3 s to 366 s).  The ratio ops/latency that Ne16PerfModel_generalized computes and discards is 0/0 for an empty layer: reported '
                     'as an undefined intermediate that does not reach the result, not as a violation.',
         not_decided=['float32 rounding of the latency formulas (A-real)', 'joint (several dimensions at once) monotonicity for NE16 / DIANA follows from the '
                      'one-dimension-at-a-time clauses by transitivity (not machine-checked)', 'w_theta_alpha other than 1 in the NE16 model (relaxed weight of a '
@@ -365,9 +366,55 @@ def h_ne16_factorisation(H, kind):
     H.ensure('ne16:number-of-spatial-tiles-is-positive', H.ge(tiles, 1))
 
 
+def h_ne16_linear_in_input_tiles(H, kind):
+    """lemma route, step (i'): at a single output position the latency is affine in the number of 16-channel input tiles,
+    latency(cin) == latency(0) + n_in(cin) * (latency(16) - latency(0)),   n_in = ceil(cin / 16) as the model writes it"""
+    fn = _ne16_fn(kind)
+    s, cin, cout, dims, w = _ne16_spec(H, kind, '', torch.tensor(1.0))
+    s['w_precision'] = torch.tensor(H.concretize(H.scalar(w)))
+    s['output_shape'] = (1, 4, 1, 1)
+    s0, s16 = dict(s), dict(s)
+    s0['in_channels'] = torch.tensor(0.0)
+    s16['in_channels'] = torch.tensor(16.0)
+    f, f0, f16 = H.scalar(fn(s)), H.scalar(fn(s0)), H.scalar(fn(s16))
+    n_in = H.scalar(((cin - 1) // 16) + 1)
+    H.ensure('ne16:latency-affine-in-input-tiles', H.eq(f, H.add(f0, H.mul(n_in, H.sub(f16, f0)))))
+    H.ensure('ne16:number-of-input-tiles-non-negative', H.ge(n_in, 0))
+
+
+def h_ne16_cout_at_fixed_input(H, kind, part):
+    """lemma route, step (ii'): with a single output position and a fixed number of input channels the only symbolic quantity is the
+    number of output channels: part 'base' = latency at 0 input channels, part 'slope' = latency(16) - latency(0); both monotone"""
+    fn = _ne16_fn(kind)
+    s, cin, cout, dims, w = _ne16_spec(H, kind, 'A', torch.tensor(1.0))
+    s['w_precision'] = torch.tensor(H.concretize(H.scalar(w)))
+    s['output_shape'] = (1, 4, 1, 1)
+    hi = H.tensor('coutB', ())
+    H.assume(H.ge(hi, cout))
+
+    def at(c_in, c_out):
+        t = dict(s)
+        t['in_channels'] = torch.tensor(c_in)
+        t['out_channels'] = c_out
+        return H.scalar(fn(t))
+    if part == 'base':
+        a, b = at(0.0, cout), at(0.0, hi)
+    else:
+        a, b = H.sub(at(16.0, cout), at(0.0, cout)), H.sub(at(16.0, hi), at(0.0, hi))
+    H.ensure('ne16:%s-monotone-in-cout' % part, H.le(a, b))
+    H.ensure('ne16:%s-non-negative' % part, H.ge(a, 0))
+
+
+def h_ne16_skeleton2(H):
+    """lemma route, arithmetic skeleton: F = F0 + n*D for both descriptions, n >= 0, F0_A <= F0_B, D_A <= D_B  ==>  F_A <= F_B"""
+    n, f0a, f0b, da, db, fa, fb = [H.real(x) for x in ('n', 'F0A', 'F0B', 'DA', 'DB', 'FA', 'FB')]
+    H.assume(H.and_(fa == f0a + n * da, fb == f0b + n * db, n >= 0, f0a <= f0b, da <= db))
+    H.ensure('ne16:monotone-in-cout-at-a-single-output-position-from-the-lemmas', fa <= fb)
+
+
 def h_ne16_skeleton(H):
     """lemma route, step (iii): F_A = a*g_A, F_B = a*g_B, a >= 0, g_A <= g_B  ==>  F_A <= F_B   (pure arithmetic over opaque reals;
-    each hypothesis is a discharged obligation: (i) h_ne16_factorisation, (ii) h_ne16 with unit=True)"""
+    each hypothesis is a discharged obligation: (i) h_ne16_factorisation, (ii) h_ne16_skeleton2 fed by h_ne16_linear_in_input_tiles and h_ne16_cout_at_fixed_input)"""
     a, gA, gB, FA, FB = H.real('a'), H.real('gA'), H.real('gB'), H.real('FA'), H.real('FB')
     H.assume(H.and_(FA == a * gA, FB == a * gB, a >= 0, gA <= gB))
     H.ensure('ne16:monotone-in-cout-from-the-two-lemmas', FA <= FB)
@@ -401,13 +448,19 @@ def h_ne16_rejects(H, kind):
 
 HARNESSES = HARNESSES + [
     dict(name='ne16', fn='h_ne16', property='C16', functions=['plinio/cost/ne16_latency.py::<Ne16PerfModel, Ne16PerfModel_generalized and the three registered models>'],
-         quick=[dict(kind=k, vary=v, unit=(v == 'cout' and k in ('3x3', '1x1'))) for k in ('3x3', '1x1', 'dw', 'linear')
-                for v in (('cin', 'cout', 'bits') + (('ho', 'wo') if k != 'linear' else ())) if not (k == 'dw' and v == 'cout')],
-         thorough=[dict(kind=k, vary=v, unit=(v == 'cout' and k in ('3x3', '1x1'))) for k in ('3x3', '1x1', 'dw', 'linear')
-                   for v in (('cin', 'cout', 'bits') + (('ho', 'wo') if k != 'linear' else ())) if not (k == 'dw' and v == 'cout')], timeout=180),
+         quick=[dict(kind=k, vary=v) for k in ('3x3', '1x1', 'dw', 'linear')
+                for v in (('cin', 'cout', 'bits') + (('ho', 'wo') if k != 'linear' else ())) if not (v == 'cout' and k != 'linear')],
+         thorough=[dict(kind=k, vary=v) for k in ('3x3', '1x1', 'dw', 'linear')
+                   for v in (('cin', 'cout', 'bits') + (('ho', 'wo') if k != 'linear' else ())) if not (v == 'cout' and k != 'linear')], timeout=180),
     dict(name='ne16-factorisation', fn='h_ne16_factorisation', property='C16', functions=['plinio/cost/ne16_latency.py::Ne16PerfModel.latency'],
          quick=[dict(kind=k) for k in ('3x3', '1x1')], thorough=[dict(kind=k) for k in ('3x3', '1x1', 'dw')], timeout=90),
     dict(name='ne16-skeleton', fn='h_ne16_skeleton', property='C16', functions=[], quick=[{}], thorough=[{}], crosscheck=0),
+    dict(name='ne16-affine-in-input-tiles', fn='h_ne16_linear_in_input_tiles', property='C16', functions=['plinio/cost/ne16_latency.py::Ne16PerfModel.latency'],
+         quick=[dict(kind=k) for k in ('3x3', '1x1')], thorough=[dict(kind=k) for k in ('3x3', '1x1')], timeout=90),
+    dict(name='ne16-cout-at-fixed-input', fn='h_ne16_cout_at_fixed_input', property='C16', functions=['plinio/cost/ne16_latency.py::Ne16PerfModel.latency'],
+         quick=[dict(kind=k, part=p) for k in ('3x3', '1x1') for p in ('base', 'slope')], thorough=[dict(kind=k, part=p) for k in ('3x3', '1x1') for p in ('base', 'slope')],
+         timeout=90),
+    dict(name='ne16-skeleton2', fn='h_ne16_skeleton2', property='C16', functions=[], quick=[{}], thorough=[{}], crosscheck=0),
     dict(name='ne16-rejects', fn='h_ne16_rejects', property='C16', functions=['plinio/cost/ne16_latency.py::_ne16_latency_conv2d_generic'],
          quick=[dict(kind=k) for k in ('3x3', '1x1', 'dw', 'linear')], thorough=[dict(kind=k) for k in ('3x3', '1x1', 'dw', 'linear')]),
 ]
